@@ -248,8 +248,8 @@ def custom_replay(run, o, c):
     k = dict(witness=dict(driver=c.replay, args=dict(model=model, obligation=o.name)))
     still, detail = run_witness(k, repo_root=run.repo.root)
     if still is None:
-        return False, "custom replay failed: " + detail, model
-    return bool(still), detail, model
+        return False, "custom replay failed: " + detail, None
+    return bool(still), detail, dict(driver=c.replay)
 
 
 def run_witness(k, repo_root=None):
